@@ -745,6 +745,10 @@ func redactScalarValue(keyPath []string, v interface{}, isSearchStage bool, isSe
 		} else {
 			grandParentKey = ""
 		}
+		if grandParentKey == "$binary" && keyPath[len(keyPath)-1] == "subType" {
+			// the BSON binary subtype is part of the wrapper, not user data (in every kind of stage)
+			return v
+		}
 		op, isOp := getOp(keyPath, isSearchStage)
 		if !isOp {
 			parentKey = keyPath[len(keyPath)-1]
